@@ -18,15 +18,15 @@ class Profile:
 
 BASIC = Profile(new=10, edit_refresh=10, push=10, pop=10, goto=6, float=6, sink=6, delete=4, hide=3, unhide=3,
                 rename=3, commit=3, uncommit=2, clean=2, undo=5, redo=3, reset=2, inspect=2, repair=1,
-                gcommit=1, greset=1, gamend=1, spill=1, logclear=0.3, invalid=4, edit_msg=3, rebase=1.5, hidden_ops=2)
+                gcommit=1, greset=1, gamend=1, spill=1, logclear=0.3, invalid=4, edit_msg=3, rebase=1.5, hidden_ops=2, squash=2.5)
 REORDER = Profile(new=6, edit_refresh=8, push=14, pop=12, goto=8, float=10, sink=10, delete=5, hide=4, unhide=4,
-                  commit=4, rename=1, undo=2, invalid=2, upstream=3, edit_msg=3, rebase=2, hidden_ops=3, conflict_reorder=3, sink_mixed=4)
+                  commit=4, rename=1, undo=2, invalid=2, upstream=3, edit_msg=3, rebase=2, hidden_ops=3, conflict_reorder=3, sink_mixed=4, squash=4)
 UNDO = Profile(new=6, edit_refresh=6, push=8, pop=8, float=3, sink=3, delete=3, hide=2, unhide=2, rename=2,
                undo=14, redo=10, reset=6, gcommit=1.5, commit=1, invalid=1, extmods=2, edit_msg=3, rebase=1, redo_chain=3, extmods_fail=2)
 REPAIR = Profile(new=8, edit_refresh=8, push=5, pop=6, delete=2, hide=2, repair=10, gcommit=8, gamend=4, greset=9,
                  gmerge=1, undo=1, commit=1, uncommit=1, inspect=1, twin_commits=3, repair_from_empty=3, extmods_fail=4, reset=2)
 COMMIT = Profile(new=10, edit_refresh=8, push=6, pop=6, commit=12, uncommit=10, float=3, sink=3, undo=3, redo=2,
-                 gcommit=3, delete=2, hide=2, goto=2, repair=1, invalid=1, edit_msg=2, rebase=3)
+                 gcommit=3, delete=2, hide=2, goto=2, repair=1, invalid=1, edit_msg=2, rebase=3, squash=2)
 DIRTY = Profile(new=8, edit_refresh=6, dirty_edit=14, push=10, pop=10, goto=6, float=5, sink=5, delete=4, hide=2,
                 unhide=1, commit=2, undo=4, redo=2, reset=1, rename=1, clean=1, repair=1, edit_msg=1, rebase=2)
 BIG = Profile(new=30, edit_refresh=6, push=6, pop=10, hide=8, unhide=3, delete=2, float=3, sink=3, undo=3, redo=1,
@@ -509,6 +509,21 @@ class Chooser:
                 c = {"c": "edit", "loc": rng.choice(allp), "meta": self.next_meta()}
             self.last_edit = c
             return dict(c)
+        if kind == "squash":
+            pool = A + U if (rng.random() < 0.9 or not H) else A + U + H
+            if len(pool) < 2:
+                return {"c": "new", "name": self.fresh_name(view), "meta": self.next_meta()}
+            k = rng.random()
+            if k < 0.6:
+                i = rng.randrange(0, len(pool) - 1)
+                picks = pool[i:i + rng.choice([2, 2, 3])]          # neighbours
+            else:
+                picks = self.pick_some(pool, 3)
+                if len(picks) < 2:
+                    picks = pool[:2]
+            x = rng.random()
+            name = rng.choice(picks) if x < 0.3 else (rng.choice(A + U + H) if x < 0.4 else self.fresh_name(view))
+            return {"c": "squash", "ranges": picks, "name": name, "meta": self.next_meta()}
         if kind == "rebase":
             k = rng.random()
             allp = A + U
